@@ -269,6 +269,78 @@ let do_parse (args : string list) : string =
       (String.concat "" (List.map code st.M.r_trace))
   | _ -> "BADCASE"
 
+(* ------------------------------------------------------------ loader *)
+let insts_text (l : M.inst list) : string = if l = [] then "-" else String.concat ";" (List.map inst_text l)
+let oinst_text (o : M.inst option) : string = match o with Some i -> inst_text i | None -> "-"
+
+let module_text (h : M.header option) (m : M.inst M.module0) : string =
+  let parts = ref [ "h=" ^ (match h with Some hd -> header_text hd | None -> "-");
+    "c=" ^ insts_text m.M.m_caps; "e=" ^ insts_text m.M.m_exts; "i=" ^ insts_text m.M.m_imports;
+    "mm=" ^ oinst_text m.M.m_memory_model; "ep=" ^ insts_text m.M.m_entry_points;
+    "em=" ^ insts_text m.M.m_exec_modes; "ds=" ^ insts_text m.M.m_debug_string_source;
+    "dn=" ^ insts_text m.M.m_debug_names; "dp=" ^ insts_text m.M.m_debug_module_processed;
+    "an=" ^ insts_text m.M.m_annotations; "tg=" ^ insts_text m.M.m_types_global_values ] in
+  List.iter (fun f ->
+    let fs = [ "d=" ^ oinst_text f.M.f_def; "e=" ^ oinst_text f.M.f_end; "p=" ^ insts_text f.M.f_params ]
+      @ List.map (fun b -> Printf.sprintf "B{l=%s i=%s}" (oinst_text b.M.b_label) (insts_text b.M.b_insts)) f.M.f_blocks in
+    parts := !parts @ [ "F{" ^ String.concat " " fs ^ "}" ]) m.M.m_functions;
+  String.concat " " !parts
+
+let lerr_name (e : M.lerr) : string =
+  match e with
+  | M.NestedFunction -> "NestedFunction" | M.UnclosedFunction -> "UnclosedFunction"
+  | M.MismatchedFunctionEnd -> "MismatchedFunctionEnd" | M.DetachedFunctionParameter -> "DetachedFunctionParameter"
+  | M.DetachedBlock -> "DetachedBlock" | M.NestedBlock -> "NestedBlock" | M.UnclosedBlock -> "UnclosedBlock"
+  | M.MismatchedTerminator -> "MismatchedTerminator" | M.DetachedInstruction -> "DetachedInstruction"
+
+let lerr_of_code (c : n) : string =
+  match int_of_string ("0x" ^ hex_of_n c) with
+  | 100 -> "NestedFunction" | 101 -> "UnclosedFunction" | 102 -> "MismatchedFunctionEnd"
+  | 103 -> "DetachedFunctionParameter" | 104 -> "DetachedBlock" | 105 -> "NestedBlock"
+  | 106 -> "UnclosedBlock" | 107 -> "MismatchedTerminator" | 108 -> "DetachedInstruction" | _ -> "PANIC"
+
+let do_feed (texts : string list) : string =
+  match (try Some (List.map inst_of_text texts) with _ -> None) with
+  | None -> "BUILDERR"
+  | Some is ->
+    if List.exists (fun i -> M.run_asm_case i = None) is then "BUILDERR" else
+    (* errors carry no position in the model; recompute it by feeding prefixes *)
+    let rec first_err k pre rest =
+      match rest with
+      | [] -> "end"
+      | x :: r ->
+        (match M.feed_case_prefix (pre @ [x]) with
+         | true -> first_err (k + 1) (pre @ [x]) r
+         | false -> string_of_int k) in
+    (match M.feed_case is with
+     | M.LCont s -> "OK " ^ module_text s.M.l_header s.M.l_module
+     | M.LErr e -> Printf.sprintf "ERR:%s@%s" (lerr_name e) (first_err 0 [] is)
+     | M.LPanic -> "PANIC")
+
+let do_load (args : string list) : string =
+  match args with
+  | [b] ->
+    let bytes = bytes_of_hex b in
+    let (w, r) = M.load_case bytes in
+    if w.M.lw_panic then "PANIC" else
+    (match r with
+     | M.Ok _ ->
+       let s = w.M.lw_state in
+       let words = M.assemble_module s.M.l_header s.M.l_module in
+       let again =
+         let (w2, r2) = M.load_case (List.concat_map (fun x -> M.bytes_of_word x) words) in
+         (match r2 with
+          | M.Ok _ -> string_of_bool (module_text w2.M.lw_state.M.l_header w2.M.lw_state.M.l_module = module_text s.M.l_header s.M.l_module)
+          | M.Er (M.PConsumerError c) -> "E:LERR:" ^ lerr_of_code c
+          | M.Er e -> "E:" ^ perr_text e
+          | M.Panic _ -> "PANIC") in
+       Printf.sprintf "OK %s A=%s R=%s LW=%s" (module_text s.M.l_header s.M.l_module) (join_n "," words) again
+         (if List.length bytes mod 4 = 0 then "true" else "n/a")
+     | M.Er (M.PConsumerError c) -> "E:LERR:" ^ lerr_of_code c
+     | M.Er e -> "E:" ^ perr_text e
+     | M.Panic _ -> "PANIC")
+  | _ -> "BADCASE"
+
 let c19long (args : string list) : string =
   match args with
   | [nh] ->
@@ -298,6 +370,8 @@ let () =
         | "asm" :: r -> do_asm r
         | "parse" :: r -> do_parse r
         | "parsew" :: r -> do_parse r
+        | "feed" :: r -> do_feed r
+        | "load" :: r -> do_load r
         | _ -> "BADCASE" in
       print_string out; print_char '\n'
     done
